@@ -161,18 +161,36 @@ def rule_validator_coverage(chk):
             else:
                 chk.holds('validator-covers-emitted-names', role, node=c, file=AE, func=fn.name,
                           detail='validated origins %s >= emitted origins %s' % (sorted(tg), sorted(want)))
-    # Group.precomputed really is the closure: a fixpoint loop adds symbols used by already selected blocks
+    # Group.precomputed really is the closure: decided by a model run of _setup_precomputed on a model table with a dependency chain three deep and a diamond
     sp = M.find_method(eq, 'Group', '_setup_precomputed')
-    wl = [w for w in ast.walk(sp) if isinstance(w, ast.While)]
-    okc = False
-    if wl:
-        src_ = M.unparse(wl[0])
-        okc = 'code_block.symbols' in src_ and 's in pre and s not in precomputed' in src_ and 'precomputed[s] = pre[s]' in src_
-    fin = [a for a in ast.walk(sp) if isinstance(a, ast.Assign) and M.unparse(a.targets[0]) == 'self.precomputed']
-    okc = okc and bool(fin) and 'sort_precomputed(precomputed' in M.unparse(fin[0].value)
-    chk.decide(okc, 'precomputed-selection-is-dependency-closed', 'Group._setup_precomputed', node=sp, file=EQ, func='Group._setup_precomputed',
-               detail_bad='the selected precomputed symbols are not closed under "symbol used by a selected block" before being stored',
-               detail_ok='fixpoint over code_block.symbols, then sort_precomputed')
+    from verif_static import emit as EM, absint as AI
+    try:
+        def blk(name, *syms):
+            return EM.mock(symbols=set(syms) | set([name]), context={name: 0.0}, src_arrays=set(x for x in syms if x.startswith('s_')), dest_arrays=set(x for x in syms if x.startswith('d_')))
+        table = {'PA': blk('PA', 'PB', 'd_x'), 'PB': blk('PB', 'PC', 'PD', 's_y'), 'PC': blk('PC', 'PE', 'd_z'), 'PD': blk('PD', 'PE'), 'PE': blk('PE', 's_w'),
+                 'PF': blk('PF', 'PG'), 'PG': blk('PG', 'd_q'), 'PH': blk('PH', 'd_r')}
+        runs = [('chain-and-diamond', ['PA'], ['PA', 'PB', 'PC', 'PD', 'PE']), ('two-roots', ['PD', 'PF'], ['PD', 'PE', 'PF', 'PG']), ('leaf-only', ['PH'], ['PH']), ('none', [], [])]
+        for label, roots, want in runs:
+            it = EM.interpreter()
+            e1 = EM.mock(name='EqM', loop=EM.func('def loop(self, d_idx, s_idx, d_au, %s):\n    pass' % ', '.join(roots[:1] + ['s_m'])))
+            e2 = EM.mock(name='EqN', loop=EM.func('def loop(self, d_idx, %s):\n    pass' % ', '.join(roots[1:] + ['d_av'])), initialize=EM.func('def initialize(self, d_idx, PH):\n    pass'))
+            obj = EM.instance(it, EQ, 'Group', equations=[e1, e2], pre_comp=table, context={}, has_subgroups=False, src_arrays=None, dest_arrays=None)
+            EM.call(it, obj, '_setup_precomputed')
+            got = obj.attrs.get('precomputed')
+            keys = list(got.keys()) if isinstance(got, dict) else None
+            okc = keys is not None and sorted(keys) == want and len(set(keys)) == len(keys)
+            # dependencies come first in the stored order (the blocks are emitted in this order)
+            if okc:
+                for k in keys:
+                    for d_ in table[k].attrs['symbols']:
+                        if d_ in table and d_ != k and keys.index(d_) > keys.index(k):
+                            okc = False
+            chk.decide(okc, 'precomputed-selection-is-dependency-closed', 'model:' + label, node=sp, file=EQ, func='Group._setup_precomputed',
+                       detail_bad='model group whose loops ask for %s over a table with PA->PB->{PC,PD}->PE, PF->PG: the stored selection is %s, expected the closure %s with '
+                                  'dependencies first - a symbol used by a selected block is then neither validated nor declared' % (roots, keys, want),
+                       detail_ok='selection %s: closed under "used by a selected block", dependencies first' % keys)
+    except (AI.Unsupported, AI.Raised) as e:
+        chk.undecided('precomputed-selection-is-dependency-closed', 'model', node=sp, file=EQ, func='Group._setup_precomputed', detail='not interpretable on the model: %s' % e)
     # every hook for which calls are generated is inspected by the validator
     gaue = M.find_func(eq, 'get_arrays_used_in_equation')
     inspected = set(s for s in M.str_consts(gaue) if s in HOOKS)
@@ -282,24 +300,6 @@ def rule_no_shortcut(chk):
     the missing-property test is made; and what it validates is computed from the equation at hand, not looked up in module-level state"""
     ae = M.py(AE)
     fn = M.find_func(ae, 'check_equation_array_properties')
-    g = C.build_cfg(fn)
-    rets = [n for n in g.nodes if n.ast is not None and isinstance(n.ast, ast.Return)]
-    final = [n.id for n in g.nodes if n.kind == 'test' and isinstance(n.ast, ast.If) and 'errors' in M.unparse(n.ast.test) and any(isinstance(b, ast.Raise) for b in ast.walk(n.ast))]
-    dest = [n.id for n in g.nodes if n.kind == 'test' and isinstance(n.ast, ast.If) and 'equation.dest' in M.unparse(n.ast.test) and any(isinstance(b, ast.Raise) for b in n.ast.body)]
-    pre = [n.id for n in g.nodes if n.ast is not None and isinstance(n.ast, ast.Expr) and M.unparse(n.ast).replace(' ', '').startswith(('_src.update(', '_dest.update('))]
-    ok = bool(final) and bool(dest) and len(pre) >= 2
-    early = []
-    if ok:
-        for r in rets:
-            # a return is fine only after the final missing-property test
-            if not g.must_pass(g.entry, r.id, final):
-                early.append(r.ast.lineno)
-        ok = not early and g.must_pass(g.entry, final[0], dest) and all(g.must_pass(g.entry, final[0], [p_]) for p_ in pre)
-    chk.decide(ok, 'validation-on-every-path', 'check_equation_array_properties', node=fn, file=AE, func=fn.name,
-               detail_bad='some path leaves the validator (return at line(s) %s) before the destination / source names are validated, the arrays needed by precomputed symbols are added '
-                          'and the missing-property test is made: an equation with no explicit d_/s_ argument (only reduce / py_initialize, or only precomputed symbols) is accepted '
-                          'with a misspelt array name or missing u, v, w, rho, h' % early,
-               detail_ok='dest check, precomputed arrays and the missing-property test on every path')
     # statelessness of what the validator consumes
     eq = M.py(EQ)
     glob = set()
@@ -353,25 +353,44 @@ def rule_message(chk):
 
 
 def rule_validator_model(chk):
-    """check_equation_array_properties decided on model inputs: the function is interpreted (E8) on a model equation and model particle arrays; what
-    get_arrays_used_in_equation and Group([equation]).get_array_names() report is fixed by the rule (explicit s_m, s_rho / d_au, d_x; precomputed s_h / d_h), so the cases say
-    which names must be demanded from which array whatever way the function is written."""
+    """check_equation_array_properties decided on model inputs: the function is interpreted (E8) on a model equation and model particle arrays.  The model
+    equation has hook signatures (initialize / loop with explicit s_m, s_rho / d_au, d_x and the pair symbol HIJ, which reads s_h / d_h); get_arrays_used_in_equation and
+    Group.get_array_names are the repository's own, interpreted on it, so the cases say which names must be demanded from which array whatever way the validator collects them."""
     from verif_static import emit as EM, absint as AI, eqindex as EI
     fn = M.find_func(M.py(AE), 'check_equation_array_properties')
     FULL = ['au', 'x', 'h', 'm', 'rho', 'p']
 
-    def run(dest_props, src_props, dest='fluid', sources=('fluid', 'solid'), dest_consts=(), second_src_props=None):
-        calls = []
+    def model_group(interp, f, args, kwargs, node, env):
+        """Group(equations) of the model: the class of the repository (its get_array_names is interpreted), with the precomputed symbols the model equations' loop
+        signatures ask for (HIJ, which reads s_h and d_h) - the selection itself is the subject of other rules"""
+        eqs = list(args[0]) if args and isinstance(args[0], list) else []
+        pre = {}
+        for e_ in eqs:
+            lp = e_.attrs.get('loop') if isinstance(e_, AI.Obj) else None
+            if isinstance(lp, AI.FuncRef) and 'HIJ' in [a.arg for a in lp.node.args.args]:
+                pre['HIJ'] = EM.mock(src_arrays=set(['s_h']), dest_arrays=set(['d_h']), symbols=set(['HIJ', 's_h', 'd_h', 's_idx', 'd_idx']))
+        return EM.instance(interp, EQ, 'Group', equations=eqs, precomputed=pre, src_arrays=None, dest_arrays=None, has_subgroups=False, context={})
 
-        def used(interp, f, args, kwargs, node, env):
-            calls.append(('used', args[0] if args else None))
-            return (set(['s_m', 's_rho']), set(['d_au', 'd_x']))
+    def model_equation(name, dest, sources, explicit=('d_au', 'd_x', 's_m', 's_rho'), pre=True):
+        d_ = [a for a in explicit if a.startswith('d_')]
+        s_ = [a for a in explicit if a.startswith('s_')]
+        hooks = dict(reduce=EM.func('def reduce(self, dst, t, dt):\n    pass'))
+        if d_:
+            hooks['initialize'] = EM.func('def initialize(self, d_idx, %s):\n    pass' % ', '.join(d_[:1]))
+        if sources is not None:
+            hooks['loop'] = EM.func('def loop(self, d_idx, s_idx, %s):\n    pass' % ', '.join(d_ + s_ + (['HIJ'] if pre else [])))
+        else:
+            hooks['initialize'] = EM.func('def initialize(self, d_idx, %s):\n    pass' % ', '.join(d_))
+        return EM.mock(name=name, dest=dest, sources=list(sources) if sources is not None else None, no_source=sources is None, **hooks)
+
+    def run(dest_props, src_props, dest='fluid', sources=('fluid', 'solid'), dest_consts=(), second_src_props=None, explicit=('d_au', 'd_x', 's_m', 's_rho')):
+        calls = []
 
         def group(interp, f, args, kwargs, node, env):
             calls.append(('group', args[0] if args else None))
-            return EM.mock(get_array_names=lambda i, a, k, n, e: (set(['s_h']), set(['d_h'])), precomputed={}, equations=list(args[0]) if args and isinstance(args[0], list) else [])
-        it = AI.Interp(EI.index(), AI.Config([]), intrinsics={(EQ, None, 'get_arrays_used_in_equation'): used, (EQ, 'Group'): group})
-        eq_ = EM.mock(name='EqX', dest=dest, sources=list(sources) if sources is not None else None, no_source=sources is None)
+            return model_group(interp, f, args, kwargs, node, env)
+        it = AI.Interp(EI.index(), AI.Config([]), intrinsics={(EQ, 'Group'): group})
+        eq_ = model_equation('EqX', dest, sources, explicit=explicit) if sources is not None else model_equation('EqX', dest, None, explicit=('d_au', 'd_x', 'd_h'))
         pas = [EM.mock(name='fluid', properties=dict((k, None) for k in dest_props), constants=dict((k, None) for k in dest_consts)),
                EM.mock(name='solid', properties=dict((k, None) for k in (second_src_props if second_src_props is not None else src_props)), constants={})]
         try:
@@ -392,6 +411,11 @@ def rule_validator_model(chk):
         ('dest-that-is-also-a-source-lacks-source-name', dict(dest_props=[k for k in FULL if k != 'm'] + ['extra'], src_props=FULL, sources=('solid', 'fluid')), 'raised', ('EqX', 'fluid', 'm')),
         ('unknown-dest', dict(dest_props=FULL, src_props=FULL, dest='nope'), 'raised', ('EqX', 'nope')),
         ('unknown-source', dict(dest_props=FULL, src_props=FULL, sources=('fluid', 'nope')), 'raised', ('EqX', 'nope')),
+        # nothing returns before the names are validated: an equation without any explicit d_/s_ argument (reduce and a loop over pair symbols only)
+        ('no-explicit-names:unknown-dest', dict(dest_props=FULL, src_props=FULL, dest='nope', explicit=()), 'raised', ('EqX', 'nope')),
+        ('no-explicit-names:unknown-source', dict(dest_props=FULL, src_props=FULL, sources=('nope',), explicit=()), 'raised', ('EqX', 'nope')),
+        ('no-explicit-names:dest-lacks-precomputed-name', dict(dest_props=['au', 'x', 'extra', 'm'], src_props=FULL, explicit=()), 'raised', ('EqX', 'fluid', 'h')),
+        ('no-explicit-names:source-lacks-precomputed-name', dict(dest_props=FULL, src_props=['au', 'x', 'extra', 'm'], explicit=()), 'raised', ('EqX', 'solid', 'h')),
         ('no-sources', dict(dest_props=['au', 'x', 'h', 'extra'], src_props=[], sources=None), 'ok', ()),
     ]
     try:
@@ -401,28 +425,15 @@ def rule_validator_model(chk):
             chk.decide(ok, 'validator-covers-emitted-names', 'model:' + label, node=fn, file=AE, func=fn.name,
                        detail_bad='model case %s: expected %s%s, the validator %s%s' % (label, want, (' with a message naming %s' % (words,)) if words else '', got, (' saying %r' % msg[:200]) if msg else ''),
                        detail_ok='%s%s' % (want, (' naming %s' % (words,)) if words else ''))
-            if label == 'complete':
-                # the required names come from the two functions the pointer set-up is generated from, asked about the equation at hand
-                u_ok = any(k == 'used' and a is eq_ for k, a in calls)
-                g_ok = any(k == 'group' and isinstance(a, list) and len(a) == 1 and a[0] is eq_ for k, a in calls)
-                chk.decide(u_ok and g_ok, 'validator-covers-emitted-names', 'model:names-from-the-emitters-sources', node=fn, file=AE, func=fn.name,
-                           detail_bad='the validator does not take the required names from get_arrays_used_in_equation(equation) and Group([equation]).get_array_names() (calls: %s)'
-                                      % [k for k, a in calls], detail_ok='explicit names and precomputed-symbol names of this equation')
         # the constructor of AccelerationEval validates every equation - of plain groups and of sub-groups - against the arrays *it* names, each array counted with its own names only
         init = M.find_method(M.py(AE), 'AccelerationEval', '__init__')
 
         def construct(eq_list_builder, fluid_props, solid_props):
             calls = []
 
-            def used(interp, f, args, kwargs, node, env):
-                return (set(['s_m']), set(['d_au']))
-
-            def group(interp, f, args, kwargs, node, env):
-                return EM.mock(get_array_names=lambda i, a, k, n, e: (set(), set()), precomputed={}, equations=list(args[0]) if args and isinstance(args[0], list) else [])
-
             def grouped(interp, f, args, kwargs, node, env):
                 return args[0]
-            it = AI.Interp(EI.index(), AI.Config([]), intrinsics={(EQ, None, 'get_arrays_used_in_equation'): used, (EQ, 'Group'): group, (AE, None, 'group_equations'): grouped,
+            it = AI.Interp(EI.index(), AI.Config([]), intrinsics={(EQ, 'Group'): model_group, (AE, None, 'group_equations'): grouped,
                                                                    (AE, 'AccelerationEval', '_get_backend'): lambda i, f, a, k, n, e: 'cython'})
             pas = [EM.mock(name='fluid', properties=dict((k, None) for k in fluid_props), constants={}), EM.mock(name='solid', properties=dict((k, None) for k in solid_props), constants={})]
             obj = EM.instance(it, AE, 'AccelerationEval')
@@ -438,20 +449,28 @@ def rule_validator_model(chk):
                 raise
 
         def plain():
-            e1 = EM.mock(name='EqF', dest='fluid', sources=['fluid', 'solid'], no_source=False)
-            e2 = EM.mock(name='EqS', dest='solid', sources=['fluid'], no_source=False)
+            e1 = model_equation('EqF', 'fluid', ['fluid', 'solid'], explicit=('d_au', 's_m'), pre=False)
+            e2 = model_equation('EqS', 'solid', ['fluid'], explicit=('d_au', 's_m'), pre=False)
             return [EM.mock(has_subgroups=False, equations=[e1, e2])]
 
         def nested():
-            e1 = EM.mock(name='EqF', dest='fluid', sources=['fluid', 'solid'], no_source=False)
-            e2 = EM.mock(name='EqS', dest='solid', sources=['fluid'], no_source=False)
+            e1 = model_equation('EqF', 'fluid', ['fluid', 'solid'], explicit=('d_au', 's_m'), pre=False)
+            e2 = model_equation('EqS', 'solid', ['fluid'], explicit=('d_au', 's_m'), pre=False)
             return [EM.mock(has_subgroups=True, equations=[EM.mock(has_subgroups=False, equations=[e1]), EM.mock(has_subgroups=False, equations=[e2])])]
         def same_class_twice():
             # two instances of one equation class (the name of an equation is its class name): the first is incomplete, the one listed after it complete
-            e1 = EM.mock(name='EqX', dest='solid', sources=['fluid'], no_source=False)
-            e2 = EM.mock(name='EqX', dest='fluid', sources=['fluid'], no_source=False)
+            e1 = model_equation('EqX', 'solid', ['fluid'], explicit=('d_au', 's_m'), pre=False)
+            e2 = model_equation('EqX', 'fluid', ['fluid'], explicit=('d_au', 's_m'), pre=False)
             return [EM.mock(has_subgroups=False, equations=[e1]), EM.mock(has_subgroups=False, equations=[e2])]
-        ccases = [('plain-complete', plain, ['au', 'm', 'x'], ['au', 'm', 'y'], 'ok', ()),
+        def pair_symbol_later():
+            # only the second equation uses a pair symbol (HIJ reads s_h / d_h)
+            e1 = model_equation('EqF', 'fluid', ['fluid', 'solid'], explicit=('d_au', 's_m'), pre=False)
+            e2 = model_equation('EqS', 'solid', ['fluid'], explicit=('d_au', 's_m'), pre=True)
+            return [EM.mock(has_subgroups=False, equations=[e1, e2])]
+        ccases = [('later-equation-needs-a-pair-symbol-the-first-does-not:dest', pair_symbol_later, ['au', 'm', 'h'], ['au', 'm', 'y'], 'raised', ('EqS', 'solid', 'h')),
+                  ('later-equation-needs-a-pair-symbol-the-first-does-not:source', pair_symbol_later, ['au', 'm', 'y'], ['au', 'm', 'h'], 'raised', ('EqS', 'fluid', 'h')),
+                  ('later-equation-needs-a-pair-symbol-the-first-does-not:complete', pair_symbol_later, ['au', 'm', 'h'], ['au', 'm', 'h'], 'ok', ()),
+                  ('plain-complete', plain, ['au', 'm', 'x'], ['au', 'm', 'y'], 'ok', ()),
                   ('incomplete-instance-followed-by-a-complete-one-of-the-same-class', same_class_twice, ['au', 'm', 'x'], ['m', 'y', 'z'], 'raised', ('EqX', 'solid', 'au')),
                   ('plain-second-array-lacks-what-the-first-has', plain, ['au', 'm', 'x'], ['m', 'y', 'z'], 'raised', ('EqS', 'solid', 'au')),
                   ('sub-groups-are-validated', nested, ['au', 'm', 'x'], ['m', 'y', 'z'], 'raised', ('EqS', 'solid', 'au')),
@@ -562,16 +581,6 @@ def rule_ordering(chk):
                        'AccelerationEval.__init__:before-megagroups', node=vl, file=AE, func='AccelerationEval.__init__',
                        detail_bad='mega-groups are created before the equations are validated',
                        detail_ok='validation dominates MegaGroup creation')
-        # iterated collection covers plain groups and sub-groups
-        it = M.unparse(vl.iter)
-        col = [n for n in ast.walk(init) if isinstance(n, ast.For) and n is not vl and n.lineno < vl.lineno]
-        covers_sub = any('has_subgroups' in M.unparse(n) for n in col)
-        ext = [c for n in col for c in M.calls(n) if isinstance(c.func, ast.Attribute) and c.func.attr == 'extend'
-               and M.unparse(c.func.value) == it]
-        chk.decide(covers_sub and len(ext) >= 2, 'validation-dominates-compilation',
-                   'AccelerationEval.__init__:all-equations', node=vl, file=AE, func='AccelerationEval.__init__',
-                   detail_bad='the validated collection %s does not gather equations of groups and of sub-groups' % it,
-                   detail_ok='%s gathers equations of every group and sub-group' % it)
     # the other construction paths
     for rel, cname in (('pysph/tools/sph_evaluator.py', 'SPHEvaluator'), ('pysph/tools/interpolator.py', 'Interpolator')):
         t = M.py(rel)
@@ -603,7 +612,7 @@ def rule_stepper_check_scope(chk):
         # two destinations share one stepper object (gas, gas2); one stepper takes a source-style name as well
         obj = EM.mock(steppers={'wall': st_b, 'fluid': st_a, 'gas': st_c, 'gas2': st_c})
         types = dict((k, EM.mock(type='double*')) for k in ('d_x', 'd_u', 'd_y', 'd_fx', 'd_rho', 's_m'))
-        aeh = EM.mock(known_types=types, object=EM.mock(particle_arrays=[EM.mock(name=n_) for n_ in ('wall', 'fluid', 'gas', 'gas2')]))
+        aeh = EM.mock(known_types=types, object=EM.mock(particle_arrays=[EM.mock(name=n_, properties=dict((k[2:], None) for k in types), constants={}) for n_ in ('wall', 'fluid', 'gas', 'gas2')]))
         h = EM.instance(it, IHF, 'IntegratorCythonHelper', _check_arrays_for_properties=rec)
         EM.call(it, h, '__init__', obj, aeh)            # built by its own constructor, so that whatever it prepares exists
         h.attrs['_check_arrays_for_properties'] = rec
@@ -639,17 +648,21 @@ def rule_stepper_check_scope(chk):
             except AI.Raised:
                 return True
         pa_ok = EM.mock(name='fluid', properties={'x': None, 'u': None}, constants={'rho0': None})
-        h2 = EM.instance(it, IHF, 'IntegratorCythonHelper', object=obj, _particle_arrays={'fluid': pa_ok})
+        def build(integ, pas):
+            # through the constructor, so that whatever it prepares (tables of names, ...) exists
+            hh = EM.instance(it, IHF, 'IntegratorCythonHelper')
+            EM.call(it, hh, '__init__', integ, EM.mock(known_types=types, object=EM.mock(particle_arrays=pas)))
+            return hh
+        pa_other = EM.mock(name='other', properties={'p': None, 'x': None}, constants={'u': None})
+        h2 = build(EM.mock(steppers={'fluid': st_a}), [pa_ok, pa_other])
         r_missing = raises(lambda: EM.call(it, h2, '_check_arrays_for_properties', 'fluid', set(['d_x', 'd_p'])))
         r_present = raises(lambda: EM.call(it, h2, '_check_arrays_for_properties', 'fluid', set(['d_x', 'd_u', 'd_rho0'])))
         chkfn = M.find_method(M.py(IHF), 'IntegratorCythonHelper', '_check_arrays_for_properties')
         chk.decide(r_missing and not r_present, 'stepper-arrays-validated-before-emission', 'validator-raises', node=chkfn, file=IHF, func='_check_arrays_for_properties',
-                   detail_bad='on a model array with properties x, u and constant rho0: names {d_x, d_p} %s, names {d_x, d_u, d_rho0} %s (a missing name must raise, properties and '
-                              'constants must both count)' % ('raise' if r_missing else 'pass', 'raise' if r_present else 'pass'), detail_ok='missing name raises; properties + constants accepted')
-        h3 = EM.instance(it, IHF, 'IntegratorCythonHelper', object=EM.mock(steppers={'fluid': st_a, 'ghost': st_b}), _particle_arrays={'fluid': pa_ok})
-        h4 = EM.instance(it, IHF, 'IntegratorCythonHelper', object=EM.mock(steppers={'fluid': st_a}), _particle_arrays={'fluid': pa_ok})
-        r_unknown = raises(lambda: EM.call(it, h3, '_check_integrator_steppers'))
-        r_known = raises(lambda: EM.call(it, h4, '_check_integrator_steppers'))
+                   detail_bad='on a model array with properties x, u and constant rho0 (another array of the problem has p): names {d_x, d_p} %s, names {d_x, d_u, d_rho0} %s (a missing name '
+                              'must raise, properties and constants must both count)' % ('raise' if r_missing else 'pass', 'raise' if r_present else 'pass'), detail_ok='missing name raises; properties + constants accepted')
+        r_unknown = raises(lambda: build(EM.mock(steppers={'fluid': st_a, 'ghost': st_b}), [pa_ok]))
+        r_known = raises(lambda: build(EM.mock(steppers={'fluid': st_a}), [pa_ok]))
         cis = M.find_method(M.py(IHF), 'IntegratorCythonHelper', '_check_integrator_steppers')
         chk.decide(r_unknown and not r_known, 'stepper-names-validated-in-constructor', 'not-in-raises', node=cis, file=IHF, func='_check_integrator_steppers',
                    detail_bad='a stepper keyed by a name that is no particle array %s; valid keys %s' % ('raises' if r_unknown else 'is accepted', 'raise' if r_known else 'pass'),
@@ -689,6 +702,8 @@ def rule_codegen_rejects_model(chk):
             it = EM.interpreter()
             sigs = dict((m_, list(v_)) for m_, v_ in SIGS.items())
             props = set(['x', 'u', 'au', 'x0'])
+            # the other array of the problem has everything the array under test lacks (each array counts with its own names only)
+            other = set(['x', 'u', 'au', 'x0']) | (set([lacking]) if lacking is not None else set())
             if lacking is not None and lacking.startswith('only_'):
                 sigs[only_in].append('d_' + lacking)          # a property read by this one method only, which the array does not have
             elif lacking is not None:
@@ -698,7 +713,7 @@ def rule_codegen_rejects_model(chk):
             integ = EM.mock(steppers={'fluid': st, 'solid': st2}, one_timestep=EM.func('def one_timestep(self, t, dt):\n    self.initialize()\n    self.stage1()\n    self.stage2()\n'))
             names_ = set(a_ for v_ in sigs.values() for a_ in v_) | set(['d_x'])
             aeh = EM.mock(known_types=dict((k_, EM.mock(type='double*')) for k_ in names_),
-                          object=EM.mock(particle_arrays=[EM.mock(name='fluid', properties=dict((p_, None) for p_ in props), constants={}), EM.mock(name='solid', properties={'x': None}, constants={})]))
+                          object=EM.mock(particle_arrays=[EM.mock(name='fluid', properties=dict((p_, None) for p_ in props), constants={}), EM.mock(name='solid', properties=dict((p_, None) for p_ in sorted(other)[:3]), constants=dict((p_, None) for p_ in sorted(other)[3:]))]))
             h = EM.instance(it, IHF, 'IntegratorCythonHelper')
             raised = None
             try:
